@@ -278,6 +278,21 @@ fn c08_negatives(rep: &mut Report, g: &GenAdf, text: &str, rng: &mut Rng, case_s
             _ => "neg()".to_string(),
         };
         mutants.push(("arity-formula", format!("{}ac({},{}).", text, l(a), bad), false));
+        // near misses of the fixed tokens: wrong constants, wrong case, unknown connectives, blanks inside tokens
+        let near: &[&str] = &[
+            "c(t)", "c(V)", "c(F)", "c(true)", "c(false)", "c(vf)", "c(x)", "c()", "c(1)", "c(v v)", "c (v)", "C(v)",
+            "Neg(a)", "NEG(a)", "not(a)", "neg (a)", "AND(a,b)", "And(a,b)", "and (a,b)", "nand(a,b)", "nor(a,b)",
+            "implies(a,b)", "equiv(a,b)", "xor(a;b)", "or(a b)", "iff(a,b", "imp[a,b]", "and{a,b}", "neg(a))", "(a)",
+            "a b", "a-b", "\"unterminated", "a\"b\"",
+        ];
+        let nm = *rng.pick(near);
+        let nm = nm.replace("a", &l(a)).replace("b,", &format!("{},", l(b)));
+        let embedded = match rng.below(3) {
+            0 => nm.clone(),
+            1 => format!("and({},{})", l(b), nm),
+            _ => format!("neg(or({},{}))", nm, l(a)),
+        };
+        mutants.push(("near-miss-token", format!("{}ac({},{}).", text, l(a), embedded), false));
         mutants.push(("arity-s", format!("{}s({},{}).", text, l(a), l(b)), false));
         mutants.push(("arity-ac", format!("{}ac({}).", text, l(a)), false));
         mutants.push(("unknown-predicate", format!("{}t({}).", text, l(a)), false));
